@@ -796,7 +796,8 @@ int main(int argc, char **argv) {
     continue;
   }
 
-  if (ld_args.len > 0)
+  // Object files given with -c, -S, -E or -M are not linked.
+  if (ld_args.len > 0 && !opt_c && !opt_S && !opt_E && !opt_M)
     run_linker(&ld_args, opt_o ? opt_o : "a.out");
   return 0;
 }
